@@ -576,7 +576,8 @@ impl<S: WebSocket, T: TimestampProvider> Task<S, T> {
                 if let Err(e) = self.datagram_tx.try_send(datagram) {
                     match e {
                         TrySendError::Full(_) => warn!("Dropped datagram: {e}"),
-                        TrySendError::Closed(_) => return Err(Error::Closed),
+                        // The `Multiplexor` has been dropped. Not fatal: see `con_recv_new_stream`
+                        TrySendError::Closed(_) => debug!("Dropped datagram: {e}"),
                     }
                 }
             }
@@ -671,10 +672,13 @@ impl<S: WebSocket, T: TimestampProvider> Task<S, T> {
         // user.
         trace!("sending stream to user");
         // This goes to the user
-        self.con_recv_stream_tx
-            .send(stream)
-            .await
-            .or(Err(Error::SendStreamToClient))?;
+        if self.con_recv_stream_tx.send(stream).await.is_err() {
+            // The `Multiplexor` has been dropped, so nobody can accept this stream. The
+            // rejected `MuxStream` is dropped right here, which resets the flow. This is
+            // not a fatal error: the task stops once it processes the drop notification
+            // and it still has to flush what was queued before the drop.
+            debug!("`Multiplexor` dropped, rejecting new stream");
+        }
         Ok(())
     }
 
@@ -686,14 +690,19 @@ impl<S: WebSocket, T: TimestampProvider> Task<S, T> {
         // At the client side, we use the associated oneshot channel to send the new stream
         trace!("sending stream to user");
         let (stream, stream_data) = self.new_stream_shared(flow_id, peer_rwnd, Bytes::new(), 0);
-        self.flows
+        let requester = self
+            .flows
             .write()
             .get_mut(&flow_id)
             .ok_or(Error::ConnAckGone)?
             .establish(stream_data)
-            .ok_or(Error::ConnAckGone)?
-            .send(Some(stream))
-            .or(Err(Error::SendStreamToClient))?;
+            .ok_or(Error::ConnAckGone)?;
+        if requester.send(Some(stream)).is_err() {
+            // The requester is gone (its future was cancelled or the `Multiplexor` was
+            // dropped). The rejected `MuxStream` is dropped right here, which resets the
+            // flow; the connection and its other flows are not affected.
+            debug!("requester of flow {flow_id:08x} is gone, resetting the new stream");
+        }
         Ok(())
     }
 
